@@ -380,6 +380,17 @@ func (v *VM[I, O, A]) setLastAccepted(lastAcceptedBlock *StatefulBlock[I, O, A])
 	v.acceptedBlocksByID.Put(v.lastAcceptedBlock.ID(), v.lastAcceptedBlock)
 }
 
+// getLastAcceptedBlock returns the last accepted block. Lookups may be served
+// from goroutines other than the consensus engine's (APIs, p2p handlers), so
+// the pointer must be read under the same lock setLastAccepted writes it under
+// and must be read only once per lookup.
+func (v *VM[I, O, A]) getLastAcceptedBlock() *StatefulBlock[I, O, A] {
+	v.metaLock.Lock()
+	defer v.metaLock.Unlock()
+
+	return v.lastAcceptedBlock
+}
+
 func (v *VM[I, O, A]) setLastProcessed(lastProcessedBlock *StatefulBlock[I, O, A]) {
 	v.metaLock.Lock()
 	defer v.metaLock.Unlock()
@@ -426,8 +437,8 @@ func (v *VM[I, O, A]) GetBlockByHeight(ctx context.Context, height uint64) (*Sta
 	ctx, span := v.tracer.Start(ctx, "VM.GetBlockByHeight")
 	defer span.End()
 
-	if v.lastAcceptedBlock.Height() == height {
-		return v.lastAcceptedBlock, nil
+	if lastAcceptedBlock := v.getLastAcceptedBlock(); lastAcceptedBlock.Height() == height {
+		return lastAcceptedBlock, nil
 	}
 	var blkID ids.ID
 	if fetchedBlkID, ok := v.acceptedBlocksByHeight.Get(height); ok {
@@ -515,7 +526,7 @@ func (v *VM[I, O, A]) buildBlock(ctx context.Context, blockCtx *block.Context) (
 
 // LastAcceptedBlock returns the last accepted block
 func (v *VM[I, O, A]) LastAcceptedBlock(_ context.Context) *StatefulBlock[I, O, A] {
-	return v.lastAcceptedBlock
+	return v.getLastAcceptedBlock()
 }
 
 // GetBlockIDAtHeight returns the ID of the block at the given height
@@ -523,8 +534,8 @@ func (v *VM[I, O, A]) GetBlockIDAtHeight(ctx context.Context, blkHeight uint64) 
 	ctx, span := v.tracer.Start(ctx, "VM.GetBlockIDAtHeight")
 	defer span.End()
 
-	if blkHeight == v.lastAcceptedBlock.Height() {
-		return v.lastAcceptedBlock.ID(), nil
+	if lastAcceptedBlock := v.getLastAcceptedBlock(); blkHeight == lastAcceptedBlock.Height() {
+		return lastAcceptedBlock.ID(), nil
 	}
 	if blkID, ok := v.acceptedBlocksByHeight.Get(blkHeight); ok {
 		return blkID, nil
@@ -543,7 +554,7 @@ func (v *VM[I, O, A]) SetPreference(_ context.Context, blkID ids.ID) error {
 
 // LastAccepted returns ID of the last accepted block
 func (v *VM[I, O, A]) LastAccepted(context.Context) (ids.ID, error) {
-	return v.lastAcceptedBlock.ID(), nil
+	return v.getLastAcceptedBlock().ID(), nil
 }
 
 // SetState sets the state of the VM
